@@ -240,6 +240,12 @@ def run(ctx, rep):
                         from rules.c05 import is_none_value
                         if is_none_value(VF, bi, s['rv']):
                             found[names[-1]] = True
+                        elif s['rv']['k'] == 'use' and op_place(s['rv']['a']) is not None and not op_place(s['rv']['a'])['p']:
+                            # `field = opt.filter(..)` written out: the temporary is `None` on the rejecting arm
+                            l_ = op_place(s['rv']['a'])['l']
+                            if any(s2['k'] == 'assign' and not s2['lhs']['p'] and s2['lhs']['l'] == l_ and s2['rv']['k'] == 'agg' and
+                                   s2['rv'].get('variant') == 'None' for b2 in VF.reachable() for s2 in VF.blocks[b2]['stmts']):
+                                found[names[-1]] = True
         for f, ok in found.items():
             rep.oblige('M3', f, ok=ok, nontrivial=True)
             if not ok:
